@@ -8,7 +8,7 @@ SRC = "independent sub-agent (seed6-{p}) given only the property text, the locat
 T = {
  'C01': ("body entered once and run to completion while task objects are recycled: rebind_base no longer clears requested_interrupt_, so a new unrelated task that receives a recycled thread object inherits a stale interruption request and is killed at its first suspension point (std::terminate inside the noexcept yield)",
          "interrupt() on a pika::thread whose function has already finished, then unrelated tasks of the same stack class that yield",
-         "first run of ./check C01 MISSED it (no program interrupted a finished thread; C12/C13 see the same line through their own programs). zoo scenario 4 now also calls interrupt() on a terminated, still joinable thread before join"),
+         "first run of ./check C01 MISSED it (no program interrupted a finished thread; C12/C13 see the same line through their own programs). A zoo variant (interrupt() on a terminated, still joinable thread before join) caught it once on /repo, but the final regression of the corpus showed that detection to depend on chance (the victim's object has to come back from the recycling heap) and, on the seeded tree, a run could end in pika's abort handling without a verdict for half an hour. Directed program `stale` added (several finished threads interrupted, then batches of yielding threads until the objects come round) together with a std::terminate handler in the harness"),
  'C02': ("a woken task runs again, for every blocking facility: detail::condition_variable::notify_one reports `no more waiters` while one is still queued (size() > 1), so the wake-up loops of latch::count_down and counting_semaphore::release(n) stop one waiter early",
          "at least two tasks blocked on the same latch / semaphore when the releasing call is made",
          "first run of ./check C02 MISSED it (every facility in the C02 programs had one waiter). zoo scenario 6 added: k tasks blocked on one latch, then on one semaphore, each released by ONE call"),
@@ -53,7 +53,7 @@ T = {
          "first run of ./check C19 caught it only through the regenerated control-flow shape (translator elastic.py: proof obligation broken, VIOLATION ... no-failing-input-found). Program `blocked` added, which gives the failing history"),
  'C20': ("exactly once / only after MPI's report: poll_multithreaded compacts requests_ / callbacks_ after it has released polling_vector_mtx_, racing with another poller that holds the lock",
          "two workers polling concurrently with several requests outstanding",
-         "caught at the first attempt"),
+         "caught at the first attempt; the change is a data race between two pollers: with the original run mix (2-4 workers) the regression of the corpus caught it in 2 of 3 attempts, so six `crowd` runs (8 workers polling without a polling pool, >= 96 requests outstanding, 3 rounds) were added to the quick tier - caught at check seeds 1-4 afterwards; a race stays a probabilistic detection"),
 }
 for p, (breaks, needs, how) in T.items():
     d = os.path.join(HERE, 'seeded', p + 'f')
